@@ -19,5 +19,6 @@ import Bmc.Proofs.C15Float
 #print axioms Bmc.Proofs.C15.convert_within_6u
 #print axioms Bmc.Proofs.C15.convert_binary64_within_6u
 #print axioms Bmc.Proofs.C15.binary64_is_rounding_to_53_bits
+#print axioms Bmc.Proofs.C15.sqrt64_is_correctly_rounded
 #print axioms Bmc.Proofs.C15.driver_prints_convertFloat
 #print axioms Bmc.Proofs.C15.convert_exact_rounding
